@@ -438,6 +438,25 @@ def catalogue(rng, level=0, classes=None):
                 lambda dtn=dtn: PaddedCircularConvolve((3, 4), 2, (3, 3), 0.5, dtype=np.dtype(dtn).type), kind=APPROX)
     except ImportError:
         pass
+    # projected gradient built directly: one axis / central differences / explicit local axes
+    for c in [dict(shape=(3, 4), axes=(1,), cdiff=True), dict(shape=(2, 3, 2), axes=(0,), cdiff=True), dict(shape=(3, 4), axes=(0, 1), cdiff=True),
+              dict(shape=(4,), axes=(0,), cdiff=True)]:
+        add("ProjectedGradient", dict(c, coord=None, dtype="float64"),
+            lambda c=c: ProjectedGradient(c["shape"], axes=c["axes"], cdiff=True, input_dtype=F64), kind=APPROX,
+            group="ProjectedGradient(cdiff)")
+    # the constructor's jit option switched off (the adjoint is then derived / cached differently)
+    add("AngularSpectrumPropagator", dict(shape=(4,), dx=0.5, pad_factor=1, jit=False),
+        lambda: optics.AngularSpectrumPropagator((4,), 0.5, k0=2.0, z=1.0, pad_factor=1, jit=False), kind=APPROX, group="jit=False")
+    add("FresnelPropagator", dict(shape=(3, 4), dx=(0.5, 0.25), pad_factor=1, jit=False),
+        lambda: optics.FresnelPropagator((3, 4), (0.5, 0.25), k0=2.0, z=1.0, pad_factor=1, jit=False), kind=APPROX, group="jit=False")
+    add("FraunhoferPropagator", dict(shape=(4,), dx=0.5, jit=False),
+        lambda: optics.FraunhoferPropagator((4,), 0.5, k0=2.0, z=1.0, jit=False), kind=APPROX, group="jit=False")
+    add("DFT", dict(shape=(2, 4), axes=None, axes_shape=None, norm=None, jit=False),
+        lambda: linop.DFT((2, 4), jit=False), kind=EXACT, group="jit=False")
+    add("SingleAxisFiniteDifference", dict(shape=(2, 3), axis=1, prepend=None, append=0, circular=False, dtype="complex128", jit=False),
+        lambda: linop.SingleAxisFiniteDifference((2, 3), input_dtype=C128, axis=1, append=0, jit=False), group="jit=False")
+    add("CircularConvolve", dict(shape=(4,), h="[1.0, -0.5]", ndims=None, h_center=None, dtype="float64", jit=False),
+        lambda: linop.CircularConvolve(snp.array(np.array([1.0, -0.5])), (4,), input_dtype=F64, jit=False), kind=APPROX, group="jit=False")
     # DFT with axes not in increasing order (incl. negative indices) paired with an axes_shape
     for (shp, axes, axshape, norm) in [((2, 3, 2), (2, 0), (3, 4), None), ((3, 2), (-1, 0), (4, 2), "forward"),
                                        ((2, 2, 3), (1, 0), (4, 1), "ortho"), ((3, 2, 2), (2, 1), None, None)]:
